@@ -436,6 +436,27 @@ func runC05(c *Ctx) {
 			sc.input = ri2.Encode()
 			c05Run(c, sc, 0)
 		}
+		if i < 3 {
+			// the other region a lenient parser may skip: pairs beyond the parser's pair limit. An
+			// authentic RouterInfo whose options hold 998 / 999 / 1000 pairs (the limit is 1000), then
+			// the same bytes with two more pairs spliced into the mapping and its size field raised:
+			// whatever the parser does with them, "verified" must mean the received bytes are signed
+			big := ri
+			big.Opts = nil
+			for j := 0; j < 998+i; j++ {
+				big.Opts = append(big.Opts, KV{[]byte(fmt.Sprintf("k%04d", j)), []byte{byte('a' + j%26)}})
+			}
+			big.Sig = nil
+			big.Sig = ed25519.Sign(k.priv, big.Encode())
+			enc := big.Encode()
+			sc.input = enc
+			c05Run(c, sc, 1)
+			optStart := len(enc) - 64 - len(encodeMapping(big.Opts))
+			m := encodeMappingPairs(big.Opts)
+			extra := encodeMappingPairs([]KV{{[]byte("zz1"), []byte("evil")}, {[]byte("zz2"), []byte("evil")}})
+			sc.input = cat(enc[:optStart], u16(len(m)+len(extra)), m, extra, enc[len(enc)-64:])
+			c05Run(c, sc, -1)
+		}
 		// ---- LeaseSet
 		ls := signLeaseSet(r, k, sigType)
 		w = ls.Encode()
